@@ -328,3 +328,58 @@ def coverage_audit(runmod, prop, tier, seed, st, jobs, nreq=150):
         prop.PROP, hit, tot, len(res), nreq, time.time() - t0), flush=True)
     return {'note': 'auxiliary reach report (dev build, instantiations of all four digit types merged by llvm-cov); never a verdict',
             'requests_per_configuration': nreq, 'anchor_files': res, 'lines_executed': hit, 'lines_total': tot, 'wall_s': round(time.time() - t0, 1)}
+
+
+def float_sweeps(runmod, prop, tier, seed, st, jobs):
+    """C14 against Rust `as`, executed in-process: float -> integer for f32 bit patterns (thorough: ALL 2^32 patterns on each of the 28
+    8..128-bit configurations; quick: 18 slices of 2^20 patterns per configuration, centred on 0, 0.5, 1, 2^(BITS-1), 2^BITS, infinity/NaN, their negatives, and at
+    random), each pattern also widened to f64 and as the head of a 64-bit pattern; integer -> f32/f64 for all 8/16-bit values and in bulk
+    (structured pseudo-random) for the 32/64/128-bit configurations."""
+    t0 = time.time()
+    paths, _ = runmod.build(['exh'], 'rel')
+    rng = random.Random(core.h64('%d/floatsweep' % seed))
+    small = ['u8x1', 'i8x1', 'u8x2', 'i8x2', 'u16x1', 'i16x1']
+    big = ['u8x4', 'u16x2', 'u32x1', 'u8x8', 'u16x4', 'u32x2', 'u64x1', 'u8x16', 'u16x8', 'u32x4', 'u64x2']
+    big += ['i' + c[1:] for c in big]
+    tasks = []
+    for cname in small + big:
+        bits = core.Cfg(cname).bits
+        if tier == 'thorough':
+            ranges = [(c << 24, (c + 1) << 24) for c in range(256)]
+        else:
+            # 1M-pattern slices centred on 0, 0.5, 1.0, 2^(BITS-1), 2^BITS, the largest finite values / infinity / NaN, their negatives, + random
+            centres = [0x00080000, 0x3f000000, 0x3f800000, (127 + bits - 1) << 23, (127 + bits) << 23, 0x7f800000]
+            centres = [c for c in centres if c < 0x7ff80000]
+            centres += [c | 0x80000000 for c in centres]
+            centres += [rng.randrange(1 << 19, (1 << 32) - (1 << 19)) for _ in range(6)]
+            ranges = [(max(0, c - (1 << 19)), min(1 << 32, c + (1 << 19))) for c in centres]
+        for lo, hi in ranges:
+            tasks.append({'bin': paths['exh'], 'cfg': cname, 'line': '%s c14f d%d d%d' % (cname, lo, hi)})
+    for cname in small:
+        tasks.append({'bin': paths['exh'], 'cfg': cname, 'line': '%s c14 d0 d%d' % (cname, 1 << core.Cfg(cname).bits)})
+    nbulk, per = (1, 2000000) if tier != 'thorough' else (24, 4000000)
+    for cname in big:
+        for k in range(nbulk):
+            tasks.append({'bin': paths['exh'], 'cfg': cname, 'bulk': True, 'line': '%s c14 d%d d%d d1' % (cname, rng.getrandbits(62) | 1, per)})
+    evals = bad = 0
+    with cf.ProcessPoolExecutor(max_workers=jobs) as ex:
+        for t, line, err in ex.map(_exh_task, tasks, chunksize=1):
+            if err:
+                st['inconclusive'].append('float sweep failed on %s: %s' % (t['line'], err))
+                continue
+            o = core.parse_outcome(line.split('=', 1)[1])
+            evals += o[0]
+            st['events'] += o[0]
+            st['requests'] += 1
+            st['ops']['float-sweep-vs-primitive:' + t['cfg']] += o[0]
+            if o[1]:
+                bad += o[1]
+                st['violations'] += o[1]
+                runmod.add_violation(st, prop, core.Cfg(t['cfg']), 'rel', t['line'], 'bulk-vs-primitive', o[2].decode('utf8', 'replace'),
+                                     'Rust `as` on the primitive of the same width (executed in-process)', '%d of the swept casts disagree with the primitive' % o[1])
+    full = tier == 'thorough'
+    st['exhaustive'].append('float -> integer vs Rust `as`: %s f32 bit patterns on 28 configurations of 8..128 bits' % ('ALL 2^32' if full else '18 slices of 2^20 of the'))
+    st['classes']['f32 bit-pattern sweep against Rust `as`'] += len(tasks)
+    st['nontrivial'].add(core.h64('floatsweep/%s' % tier))
+    print('[%s] float sweeps vs Rust `as`: %d evaluations, %d mismatches, %.0fs' % (prop.PROP, evals, bad, time.time() - t0), flush=True)
+    return {'evaluations': evals, 'mismatches': bad, 'all_f32_bit_patterns': full, 'wall_s': round(time.time() - t0, 1)}
